@@ -1,8 +1,7 @@
 (* Model/HttpTranslate.v -- translation of HTTP messages between versions (C06).
    mitmproxy/proxy/layers/http/_http2.py: split_pseudo_headers, parse_h2_request_headers, parse_h2_response_headers,
    normalize_h1_headers, normalize_h2_headers, format_h2_request_headers, format_h2_response_headers (shared by _http3.py);
-   _http1.py: the HTTP/2-or-3 to HTTP/1 conversion in Http1Client.send (Host insertion, authority cleared, chunked framing
-   of a body without Content-Length, Cookie joining) and Http1Server.send (version, reason phrase);
+   _http1.py: the HTTP/2-or-3 to HTTP/1 conversion in Http1Client.send (Host insertion, authority cleared, Cookie joining) and Http1Server.send (version, reason phrase);
    layers/http/__init__.py: validate_request / check_invalid, the Expect: 100-continue rewrite;
    and, as an explicit boolean contract, what hyper-h2 4.4.1 rejects on inbound header blocks
    (h2.utilities.validate_headers as configured by Http2Connection.h2_conf + the content-length bookkeeping of
@@ -301,24 +300,22 @@ Definition validate_request_transparent (r : h2_request) : vres :=
 Definition strip_expect (h : headers) : headers :=
   if bytes_eqb (lower (hget_default N_EXPECT h)) V_100_CONTINUE then hdel N_EXPECT h else h.
 
-(* ---------- _http1.py Http1Client.send(RequestHeaders) for an HTTP/2 or HTTP/3 request:
-   the HTTP/1 head that is assembled, and whether the body is framed with chunked transfer encoding *)
-Definition h1_of_h2_request (r : h2_request) (end_stream : bool) : request_head * bool :=
+(* ---------- _http1.py Http1Client.send(RequestHeaders) for an HTTP/2 or HTTP/3 request: the HTTP/1 head that is
+   assembled (Host from the raw :authority bytes: fixes/C06-host-raw-authority.diff) *)
+Definition h1_of_h2_request (r : h2_request) : request_head :=
   let h0 := hq_fields r in
   let h1 := if negb (hcontains N_HOST_CAP h0) && match hq_authority r with [] => false | _ => true end
             then (N_HOST_CAP, hq_authority r) :: h0 else h0 in
-  let chunked := negb end_stream && negb (hcontains CONTENT_LENGTH h1) && negb (hcontains TRANSFER_ENCODING h1) in
-  let h2 := if chunked then hset N_TE_CAP CHUNKED h1 else h1 in
-  let cookies := get_all N_COOKIE h2 in
-  let h3 := match cookies with _ :: _ :: _ => hset N_COOKIE (join_semi cookies) h2 | _ => h2 end in
-  (mkReq [] 0%N (hq_method r) (hq_scheme r) [] (hq_path r) V_HTTP11 h3, chunked).
+  let cookies := get_all N_COOKIE h1 in
+  let h3 := match cookies with _ :: _ :: _ => hset N_COOKIE (join_semi cookies) h1 | _ => h1 end in
+  mkReq [] 0%N (hq_method r) (hq_scheme r) [] (hq_path r) V_HTTP11 h3.
 
-(* RequestHeaders, RequestData (if content), RequestEndOfMessage as sent by HttpStream for a buffered request *)
+(* RequestHeaders, RequestData (if content), RequestEndOfMessage as sent by HttpStream for a buffered request: the body
+   is chunk-framed only when the request itself carries Transfer-Encoding: chunked; without it the bytes follow the head
+   as they are, whether or not a Content-Length announces them *)
 Definition h1_request_bytes (r : h2_request) (content : bytes) : bytes :=
-  let end_stream := match content with [] => true | _ => false end in
-  let (head, chunked) := h1_of_h2_request r end_stream in
-  let ch := chunked || send_chunked (hq_fields r) in
-  assemble_request_head head
+  let ch := send_chunked (hq_fields r) in
+  assemble_request_head (h1_of_h2_request r)
   ++ match content with [] => [] | _ => if ch then emit_chunk content else content end
   ++ (if ch then LAST_CHUNK else []).
 
